@@ -102,10 +102,11 @@ export function genObject(rng, d, names, forceKey) {
 }
 export function genDisc(rng, d, names, force = null) {
   // force = {key, tags}: a second union over the same discriminator and the same tags (different bodies)
-  const key = force ? force.key : rng.pick(["t", "kind", "type"]);
+  // (now and then a discriminator NAME with punctuation: it goes through the same sanitizer as the tags, on every print)
+  const key = force ? force.key : rng.chance(1, 6) ? rng.pick(["event_type", "x.kind", "k-1"]) : rng.pick(["t", "kind", "type"]);
   const nv = force ? force.tags.length : 2 + rng.below(2);
   // "A" / "a", "a-b" / "a b": tags that read the same once sanitized for a schema definition name
-  const pool = ["a", "b", "c", "d", "constructor", "toString", "__proto__", "A", "a-b", "a b"];
+  const pool = ["a", "b", "c", "d", "constructor", "toString", "__proto__", "A", "a-b", "a b", "invoice.paid", "order/paid", "a__b"];
   const variants = [];
   const used = new Set();
   for (let i = 0; i < nv; i++) {
@@ -138,6 +139,13 @@ export function genRT(rng, d, names) {
       // intersections whose members are not object types (`string & StringFormat<…>`, `(string | number) & (string | boolean)`,
       // `unknown & string`): every member may accept a value the intersection itself rejects
       if (rng.chance(1, 5)) r = [A("allof"), ...Array.from({ length: n }, () => (rng.chance(1, 2) ? genLeaf(rng) : [A("anyof"), genLeaf(rng), genLeaf(rng)]))];
+      // a plain union of object types BELOW an intersection that survives to run time (directly, or under a property of a member):
+      // validation and the parse step must pick the same branches, whatever the options
+      else if (rng.chance(1, 5)) {
+        const u = [A("anyof"), genObject(rng, 1, names), genObject(rng, 1, names)];
+        const other = objNames.length && rng.chance(1, 2) ? [A("ref"), rng.pick(objNames)] : genObject(rng, 1, names);
+        r = rng.chance(1, 2) ? [A("allof"), u, other] : [A("allof"), [A("object"), [["pet", u]], []], other];
+      }
       break;
     }
     case 8: r = genDisc(rng, d - 1, names); break;
@@ -487,6 +495,11 @@ export function makeRunner(rt_, mode) {
       } catch (e) { bad.add("c03.throw"); return { r: null, out: [A("throw"), errClass(e)] }; }
     };
     const si = sp("input"), ss = sp("sorted");
+    // the report is a function of validator and value: the key-order option and an earlier report change nothing in it
+    if (si.r && ss.r && !si.r.success && !ss.r.success) {
+      const again = sp("input");
+      if (show(si.out) !== show(ss.out) || show(again.out) !== show(si.out)) bad.add("c12.stable");
+    }
     let msg;
     let parsed, parseReturned = false;
     try { parsed = parser.parse(x, opt("input")); parseReturned = true; msg = [A("returned")]; }
